@@ -22,8 +22,13 @@ func (e *CombineExpr) Evaluate(engine *Engine, input interface{}, args []*Statem
 		return nil, err
 	}
 
+	// The first argument has already been evaluated to find the type of the
+	// result. Evaluating it again would double the work for every level of
+	// Combine() that is nested inside a first argument.
 	slice := reflect.MakeSlice(reflect.TypeOf(firstArg), 0, 0)
-	for _, arg := range args {
+	slice = reflect.AppendSlice(slice, reflect.ValueOf(firstArg))
+
+	for _, arg := range args[1:] {
 		argValue, err := arg.Evaluate(engine, input)
 		if err != nil {
 			return nil, err
